@@ -242,6 +242,7 @@ type world struct {
 	nextIno            int
 	gone               []string // directories removed by the current operation
 	dead               []int    // config inodes destroyed by the current operation
+	entryChanged       bool     // the current operation created, replaced or removed the config path's own directory entry
 }
 
 func must(err error) {
@@ -293,7 +294,7 @@ func (w *world) dropK8sLink() {
 }
 
 func (w *world) apply(o op, pause func()) {
-	w.gone, w.dead = nil, nil
+	w.gone, w.dead, w.entryChanged = nil, nil, false
 	c := o.C
 	if c < 0 {
 		c = w.cur
@@ -301,6 +302,7 @@ func (w *world) apply(o op, pause func()) {
 	b := contentBytes(c)
 	oldShape, oldIno, oldTarget, oldDir := w.shape, w.ino, w.target, w.targetDir
 	replaced := func() { // the rename replaced the directory entry of the config path
+		w.entryChanged = true
 		if oldShape == shRegular {
 			w.dead = append(w.dead, oldIno)
 		}
@@ -326,6 +328,7 @@ func (w *world) apply(o op, pause func()) {
 			if !exists {
 				w.newIno()
 				if w.shape == shMissing {
+					w.entryChanged = true
 					w.shape, w.target, w.targetDir = shRegular, w.cfg, ""
 				} else { // dangling: the target was created through the link
 					w.shape = w.danglingOf
@@ -780,8 +783,10 @@ func runRacing(in input) driver.Result {
 		before := w.cur
 		shapeBefore := w.shape
 		w.apply(o, func() { time.Sleep(pauses[o.P%len(pauses)]) })
-		// (operation, it removed only the symlink's target and left a dangling link)
-		hist = append(hist, fmt.Sprintf("(%s, %s)", opTerm(o), coqfmt.Bool(w.shape == shDangling && shapeBefore != shDangling)))
+		// (operation, it removed only the symlink's target and left a dangling link,
+		//  it touched the config path's own directory entry)
+		hist = append(hist, fmt.Sprintf("(%s, %s, %s)", opTerm(o), coqfmt.Bool(w.shape == shDangling && shapeBefore != shDangling),
+			coqfmt.Bool(w.entryChanged)))
 		if o.K == "reload" {
 			r.sendReload()
 		}
